@@ -247,13 +247,33 @@ func c01Drive(args []string) int {
 	var events []interface{}
 	trNo := 0
 	corpus := append(repoSamples(), miniSamples()...)
+	// and the accepted variants of the harness-owned schemas with one number at an integer boundary (a column that
+	// means "the rest of the line", an index that is never there): intact and doubled input only
+	single := map[string]bool{}
+	for _, s := range append(miniSamples(), generatedSamples()...) {
+		for _, b := range boundarySchemas(s.Schema) {
+			if _, err, p := newSchema(b.Schema); err == nil && p == "" {
+				nm := s.Name + " [" + b.Desc + "]"
+				single[nm] = true
+				in := s.Input
+				if len(in) > 3000 {
+					in = in[:3000]
+				}
+				corpus = append(corpus, Sample{nm, s.Format, b.Schema, in})
+			}
+		}
+	}
 	for _, s := range corpus {
 		sch, err, p := newSchema(s.Schema)
 		if err != nil || p != "" {
 			fmt.Println("error: corpus schema rejected", s.Name, err, p)
 			return 3
 		}
-		for vi, in := range mutateInput(s.Input, r, nmut) {
+		nm := nmut
+		if single[s.Name] {
+			nm = 0
+		}
+		for vi, in := range mutateInput(s.Input, r, nm) {
 			trNo++
 			events = append(events, c01Event{Ev: "Reset", Tr: trNo})
 			var tr omniparser.Transform
